@@ -1,5 +1,6 @@
 """Request-level server properties: C03 (confinement), C06 (access policy), C09 (option negotiation), C05 (listener availability)."""
-import itertools, os, posixpath
+import itertools
+import re, os, posixpath
 from .runner import Prop
 from .wutil import fnv, hx, gen_bytes, content
 from . import rfc, core
@@ -63,6 +64,24 @@ def enc(p):
     return out
 
 
+class SparseZeros:
+    """a file of n zero bytes that is never materialised (sizes beyond 4 GiB)"""
+    def __init__(self, n):
+        self.n = n
+
+    def __len__(self):
+        return self.n
+
+    def __getitem__(self, sl):
+        lo, hi, _ = sl.indices(self.n)
+        return bytes(max(0, hi - lo))
+
+
+def untilde(p):
+    """`~xx` in a path of the sandbox spec stands for the byte xx"""
+    return re.sub(r"~([0-9a-fA-F]{2})", lambda m: chr(int(m.group(1), 16)), p)
+
+
 class Case:
     def __init__(self, line):
         t = line.split(" ")
@@ -81,10 +100,13 @@ class Case:
         if t[3] != "-":
             for item in t[3].split(","):
                 if item.endswith("/"):
-                    self.dirs.add(item.rstrip("/"))
+                    self.dirs.add(untilde(item.rstrip("/")))
                 else:
                     p, h = item.split("=")
-                    if h == "|":
+                    p = untilde(p)
+                    if h.startswith("sparse:"):
+                        self.files[p] = SparseZeros(int(h.split(":")[1]))
+                    elif h == "|":
                         self.files[p] = b""     # a FIFO (hostile batches only)
                     elif h.startswith("@"):
                         # a symbolic link to a file of the same directory, named earlier: reads follow it
@@ -133,6 +155,33 @@ def upload_plan(rec):
         nfull = w      # a whole window of just over 1 MiB is uploaded in full (paced)
     data = b"".join(gen_bytes(b, k) for k in range(1, nfull + 1)) + b"abc"
     return nfull, b, w, data
+
+
+def upload_stored_oracle(line, impl):
+    """a `req` line whose write request was accepted and whose scripted upload was acknowledged to the end: the file at the target holds
+    exactly the bytes sent - whatever the request said about sizes"""
+    if impl in ("abort", "panic") or not impl.startswith("r1="):
+        return ("server died or no observation: " + impl[:60], "died")
+    c = Case(line)
+    r1, conv, fs = parse_req_obs(impl)
+    kind, name, opts = parse_rq(c.dgram)
+    if kind != "wrq" or not (r1.endswith("ack 0") or " oack " in r1):
+        return None
+    rec = recognised(opts)
+    nfull, b, w, data = upload_plan(rec)
+    acks = [t for t in conv.split(" ") if t.startswith("A")]
+    if not acks or acks[-1] != "A%d" % ((nfull + 1) % 65536):
+        return None
+    res = c.resolve(kind, name)
+    if res is None:
+        return None
+    rel = res[0]
+    want = "%s:%d:%d" % (enc(rel), len(data), fnv(data))
+    if want not in lst(fs):
+        mine = [x for x in lst(fs) if x.startswith(enc(rel) + ":")]
+        return ("the upload was acknowledged to its last block, but the stored file is not the %d bytes sent (%s)" % (len(data), ",".join(mine) or "no file"),
+                "upload-not-stored")
+    return None
 
 
 def parse_req_obs(impl):
@@ -306,9 +355,12 @@ class C06(ServerProp):
         flagsets += [f + "v" for f in flagsets[::3]]      # the same cells with the server on ::1
         flagsets += [f + "p" for f in flagsets[1:32:4]]   # the client's transfer identifier is a port <= 1024 (any port is a valid TID)
         flagsets += [f + "t" for f in flagsets[2:32:4]]   # the served directories are configured with a trailing separator
+        flagsets += [f + "2" for f in flagsets[3:32:5]]   # duplicate-packets mode: a refusal is still one datagram
         names = [b"a", b"new", b"sub/b", b"sub/new", b"nodir/x", b"long", b"short", b"/a", b"sub\\b", b"empty", b"sub/empty",
                  # letters whose code point, cut to one byte, is '/' or '\\' (U+042F, U+015C, U+4E5C): they are letters, not separators
-                 "sub\u042fb".encode(), "\u042fa".encode(), "sub\u015cb".encode(), "\u4e5clong".encode()]
+                 "sub\u042fb".encode(), "\u042fa".encode(), "sub\u015cb".encode(), "\u4e5clong".encode(),
+                 # control characters are ordinary name bytes (an existing file, a new file, next to a printable look-alike)
+                 b"c\td", b"n\x1bw", b"sub/c\x7fd"]
         optsets = [(), (("blksize", 8),), (("tsize", 7), ("windowsize", 2)), (("timeout", 1), ("blksize", 1428), ("foo", "1")),
                    # values the server cannot honour: a request that is refused anyway must still get its refusal
                    (("blksize", 7),), (("timeout", 0), ("blksize", 512)), (("windowsize", 0),), (("blksize", 65465), ("tsize", 1))]
@@ -324,6 +376,8 @@ class C06(ServerProp):
                         fs = ["%s/a=%s" % (base, hx(b"file-a-content")), "%s/sub/b=%s" % (base, hx(b"bb")),
                               "%s/long=%s" % (rbase, "gen:900:3"), "%s/short=%s" % (rbase, hx(b"s")), "%s/sub/" % rbase, "secret=%s" % hx(b"TOP"),
                               "%s/empty=-" % rbase, "%s/sub/empty=-" % rbase]
+                        fs += ["%s/c~09d=%s" % (base, hx(b"tab-file")), "%s/c?d=%s" % (base, hx(b"question-mark-file")),
+                               "%s/sub/c~7fd=%s" % (rbase, hx(b"del")), "%s/sub/c?d=%s" % (rbase, hx(b"qm"))]
                         if split:
                             fs += ["send/empty=-"]
                         if split:
@@ -362,8 +416,8 @@ class C06(ServerProp):
                 return ("refusal not from the listening port / with effect", "refusal-source")
         if kind == "wrq" and exists_file and c.ow and conv.startswith("A"):
             data = upload_plan(recognised(opts))[3]
-            want = "%s:%d:%d" % (rel, len(data), fnv(data))
-            if want not in after or any(x.startswith(rel + ":") and x != want for x in after):
+            want = "%s:%d:%d" % (enc(rel), len(data), fnv(data))
+            if want not in after or any(x.startswith(enc(rel) + ":") and x != want for x in after):
                 return ("completed upload with overwrite did not replace the old content entirely", "overwrite-replace")
         return None
 
@@ -492,6 +546,11 @@ class C09(ServerProp):
         if p is None:
             return None
         kind, name, opts = p
+        if line.startswith("req ") and kind == "wrq":
+            # "the transfer then uses precisely the acknowledged values": whatever was declared, what is stored is what was sent
+            v = upload_stored_oracle(line, impl)
+            if v:
+                return v
         rec = recognised(opts)
         if rec == "bad":
             if "oack" in r1 or conv not in ("-",):
@@ -621,6 +680,16 @@ class C05(ServerProp):
                         probe = rq("rrq", b"f", (("blksize", 16),))
                         lines.append("storm %s %s srv/f=gen:40:9 %s %s" % (self.root(i), flags, probe.hex(), rq(kind, b"f" if kind == "rrq" else b"up", ((nm, v),)).hex()))
                         i += 1
+        # directed: a backlog for one endpoint: its transfer's worker never reads (it is stuck opening a FIFO) while the endpoint sends more than
+        # a thousand further datagrams - the listener must go on serving everybody else (both port modes; in single-port mode those
+        # datagrams are routed to the stuck worker)
+        for flags in ["s", "-", "sv"]:
+            for cnt in ([1500] if tier == "quick" else [1100, 3000, 20000]):
+                for pkt in [rfc.encode(("ack", 1)), rfc.encode(("data", 1, b"xyz"))]:
+                    batch = [rq("rrq", b"pipe", ()).hex(), rq("rrq", b"f", ()).hex(), rq("rrq", b"missing", ()).hex(), "%d*%s" % (cnt, pkt.hex())]
+                    probe = rq("rrq", b"f", (("blksize", 16),))
+                    lines.append("storm %s %s srv/f=gen:40:9,srv/pipe=| %s %s" % (self.root(i), flags, probe.hex(), " ".join(batch)))
+                    i += 1
         # directed: "from any number of sources" - a long run of accepted requests, each from its own endpoint (per-client state of
         # the listener - the single-port routing table - grows with every one of them), then the probe from yet another endpoint
         for flags in ["sm", "m", "smr"]:
@@ -646,7 +715,7 @@ class C05(ServerProp):
         res.count("flags:" + t[2])
         res.count("batch:%s" % (min(len(t) - 5, 12) if len(t) - 5 <= 12 else ">=100-distinct-sources"))
         for h in t[5:]:
-            d = rfc.unhx(h)
+            d = rfc.unhx(h.split("*")[-1])
             res.count("dgram:" + ("rq" if len(d) > 1 and d[0] == 0 and d[1] in (1, 2) else "other"))
 
     def oracle(self, line, impl):
